@@ -25,7 +25,7 @@ PROPS = {
         "trusted": ["known finding valuation-account-not-opened: generated valuation accounts are never opened (C16_valuation_account_not_opened)"],
     },
     "C06": {
-        "lean": ["Knut.Properties.C06", "Knut.Properties.C06Report"],
+        "lean": ["Knut.Properties.C06", "Knut.Properties.C06Report", "Knut.Properties.C05Valued"],
         "level": "proof",
         "claim": "PARTIAL proof + repeated-run check. In the model every map iteration / arrival order is the order of a list; proved for all inputs: C06_sort_oracle_irrelevant and "
                  "C06_sorted_fold_oracle_irrelevant (sorting with a total antisymmetric comparator removes the enumeration order: the dict.SortedKeys / compare.Sort sites), C06_sum_oracle_irrelevant "
@@ -42,7 +42,7 @@ PROPS = {
         "assumptions": [],
     },
     "C05": {
-        "lean": ["Knut.Properties.C05", "Knut.Properties.C05Verdict", "Knut.Properties.C05Inserts"],
+        "lean": ["Knut.Properties.C05", "Knut.Properties.C05Verdict", "Knut.Properties.C05Inserts", "Knut.Properties.C05Valued"],
         "level": "proof",
         "claim": "PARTIAL proof + metamorphic correspondence. Proved for all directive lists and all permutations of them: ofList_spec (the builder's days are sorted by date and each day holds "
                  "exactly the directives of its date, per kind, in input order), C05_same_dates, C05_same_day_content (per day and kind the contents are permutations of each other), "
@@ -50,7 +50,8 @@ PROPS = {
                  "Properties/C05Verdict.lean: verdict_perm / C05_verdict_perm (the checker's accept/reject verdict is the same for every permutation of the directives; only the NAMED offender may "
                  "differ, witness C05_offender_may_differ), C05_days_equiv; Properties/C05Inserts.lean: C05_inserts_perm (unvalued pipeline, closing on or off: the report inserts of two day-equivalent journals are "
                  "permutations of each other; equality fails, kernel-checked witness), C05_run_ok_perm, C05_report_perm and C05_balance_output_perm (for every permutation of the directives of a journal with well-formed "
-                 "accounts BalanceCmd.run f ds = BalanceCmd.run f ds' — period, partition, closing days, pipeline, table, text or CSV bytes, failure included). Not mechanised: the valued report (adjustment order, same-day prices). "
+                 "accounts BalanceCmd.run f ds = BalanceCmd.run f ds' — period, partition, closing days, pipeline, table, text or CSV bytes, failure included). Properties/C05Valued.lean: the same for VALUED reports (C05_inserts_perm_valued, C05_run_ok_perm_valued, C05_report_perm_valued, C05_balance_output_perm_valued: any flags incl. --val, adjustment order and missing-price failures included), for journals without two price directives for one commodity pair on one date (PricesDistinct; needed: kernel-checked witness C05_two_prices_one_day_order_matters). "
+                 ""
                  "Decided on every run as well: each journal is written in several directive orders and include-tree "
                  "layouts (1-5 files, depth <= 3, ./ and ../ paths, sub-directories), loaded by the REAL concurrent loader under different schedule-perturbation seeds (-tags verif), and check "
                  "verdict, balance output (byte for byte) and print output (same directives per date, identical transaction sequence) are compared across all variants and with the model run on the "
